@@ -47,6 +47,10 @@ theorem C13_validation_precedes_create :
     validationBefore "s.transactions.Create" Generated.setCalls = true := by
   set_option maxRecDepth 1000000 in decide
 
+/-- Translator fact: the two checks `Set` does inline — no operations, and the whole
+    GNMI_SET_SIZE_LIMIT block — also end before `transactions.Create` is called. -/
+theorem C13_inline_guards_precede_create : Generated.setInlineGuardsBeforeCreate = true := by decide
+
 /-- Translator fact: none of the helpers `Set` runs before the transaction exists calls a store at all. -/
 theorem C13_helpers_do_not_touch_stores :
     (Generated.setHelperCalls.all fun h => h.2.all fun c => !isStoreCall c) = true := by
